@@ -91,6 +91,17 @@ def check(ctx):
         def r2(f=f, e=e):
             w = '%s:%s' % (e['where'], f.name)
             sc, qc, cc, v = e['args']
+            # the three cells must be the accumulator's own storage (lvalues rooted in *this), not
+            # copies held in locals: a compensation kept in a local does not survive the call
+            lvs = e.get('ref_lvs') or {}
+            for k_, nm in ((0, 'sum'), (1, 'sum of squares'), (2, 'compensation')):
+                lv = lvs.get(k_)
+                if lv is None or lv[1] != ('this', 'this') or not lv[2] or lv[2][0][0] != 'f':
+                    ctx.violation('R2.persistent_cells', w, 'the %s handed to accumulate() is not an element of '
+                                  'the accumulator\'s member storage (it is %s): the running value is updated '
+                                  'on a copy and lost after the call' % (nm, 'a local object' if lv is not None else 'a temporary'),
+                                  {'lvalue': str(lv)})
+                    return
             for nm, cell in (('sum', sc), ('sum of squares', qc), ('compensation', cc)):
                 if not (isinstance(cell, tuple) and cell[0] == 'sel' and cell[1][0] == 'fld' and cell[1][1] == TH):
                     ctx.violation('R2.persistent_cells', w, 'the %s cell is not member storage of the '
